@@ -24,11 +24,11 @@ def tla_set(xs):
 def body(c):
     if c.quick:
         depths, light, sizes, cuts, heavy, nmut, budget = [100, 1000, 10000], [100], [3000], [0, 1, 5, 10, 15, 19], ["execute", "json"], 250, 30000
-        seldepths = [50, 65, 200, 1000, 3000, 5000, 20000]
+        seldepths = [50, 65, 200, 1000, 2900, 5000, 20000]
     else:
         depths, light, sizes, cuts = [100, 300, 1000, 3000, 10000, 30000], [100, 300, 1000], [1000, 10000], list(range(20))
         heavy, nmut, budget = ["execute", "json", "get", "multipart", "ws"], 6000, 120000
-        seldepths = [50, 64, 65, 100, 200, 500, 1000, 2000, 3000, 5000, 20000]
+        seldepths = [50, 64, 65, 100, 200, 500, 1000, 2000, 2900, 5000, 20000]
     gen_cfg = c.path("Gen_Hostile.cfg")
     with open(gen_cfg, "w") as f:
         f.write("CONSTANT Depths = %s\nCONSTANT SelDepths = %s\nCONSTANT LightDepths = %s\nCONSTANT Sizes = %s\nCONSTANT Cuts = %s\nCONSTANT SafeDepth = %d\nCONSTANT SafeSel = %d\n"
